@@ -60,6 +60,8 @@ pub enum SK {
     Q0Fill,
     /// QoS 1 publish through the non-blocking API (publish_ack_cb + send_at_least_once_no_block)
     Q1NoBlock,
+    /// ... with a caller-chosen packet id
+    Q1NoBlockId(u16),
     /// over-size QoS 1 publish with a caller-chosen packet id (fails locally; the id must stay usable)
     Q1BigId(u16),
     /// subscribe with an over-long filter: must fail locally (encoder)
@@ -268,7 +270,7 @@ async fn run_sender_v5(sink: ntex_mqtt::v5::MqttSink, kind: SK, j: usize, app: A
                 Err(e) => format!("err:{e:?}"),
             });
         }
-        SK::Q1NoBlock => {
+        SK::Q1NoBlock | SK::Q1NoBlockId(_) => {
             // the callback is the completion of this send: (id, false) = acknowledged, (id, true) = connection gone
             let app_cb = app.clone();
             sink.publish_ack_cb(move |ack, disconnected| {
@@ -278,7 +280,11 @@ async fn run_sender_v5(sink: ntex_mqtt::v5::MqttSink, kind: SK, j: usize, app: A
                 }
             });
             if sink.is_ready() {
-                let r = sink.publish(bs("t")).send_at_least_once_no_block(by(&[tag(j)]));
+                let mut b = sink.publish(bs("t"));
+                if let SK::Q1NoBlockId(id) = kind {
+                    b = b.packet_id(id);
+                }
+                let r = b.send_at_least_once_no_block(by(&[tag(j)]));
                 push(match &r {
                     Ok(()) => "sent".into(),
                     Err(e) => format!("err:{e:?}"),
@@ -529,7 +535,7 @@ async fn run_sender_v3(sink: ntex_mqtt::v3::MqttSink, kind: SK, j: usize, app: A
                 Err(e) => format!("err:{e:?}"),
             });
         }
-        SK::Q1NoBlock => {
+        SK::Q1NoBlock | SK::Q1NoBlockId(_) => {
             // the callback is the completion of this send: (id, false) = acknowledged, (id, true) = connection gone
             let app_cb = app.clone();
             sink.publish_ack_cb(move |id, disconnected| {
@@ -538,7 +544,11 @@ async fn run_sender_v3(sink: ntex_mqtt::v3::MqttSink, kind: SK, j: usize, app: A
                 }
             });
             if sink.is_ready() {
-                let r = sink.publish(bs("t")).send_at_least_once_no_block(by(&[tag(j)]));
+                let mut b = sink.publish(bs("t"));
+                if let SK::Q1NoBlockId(id) = kind {
+                    b = b.packet_id(id);
+                }
+                let r = b.send_at_least_once_no_block(by(&[tag(j)]));
                 push(match &r {
                     Ok(()) => "sent".into(),
                     Err(e) => format!("err:{e:?}"),
@@ -744,6 +754,8 @@ pub const J_LIVENESS: u32 = 2;
 pub const J_ROUTING: u32 = 4;
 pub const J_QOS2: u32 = 8;
 pub const J_WIRE: u32 = 16;
+/// packet ids on the wire only (part of J_ROUTING; for sender sets whose acknowledgements the routing oracle does not attribute)
+pub const J_IDS: u32 = 32;
 
 #[derive(Clone, Copy, Debug, PartialEq, Eq)]
 pub enum Ev {
@@ -1146,12 +1158,12 @@ impl Out {
             // a truncated streamed publish at the tail also counts as "written"
             let in_tail = matches!(kind, SK::Stream { .. }) && !tail.is_empty() && tail.windows(2).any(|w| w[0] == b's' && w[1] == b'0' + j as u8);
             // the non-blocking API reports "sent" when the packet was handed over ("ok" is its later callback)
-            let first_ok = s.results.iter().filter(|r| if kind == SK::Q1NoBlock { r.as_str() == "sent" } else { r.starts_with("ok") }).count();
+            let first_ok = s.results.iter().filter(|r| if matches!(kind, SK::Q1NoBlock | SK::Q1NoBlockId(_)) { r.as_str() == "sent" } else { r.starts_with("ok") }).count();
             let first_err = s.results.iter().any(|r| r.starts_with("err"));
             let written = on_wire + usize::from(in_tail);
             match kind {
                 SK::Ready => {}
-                SK::Q0 | SK::Q1NoBlock | SK::Stream { qos: 0, .. } => {
+                SK::Q0 | SK::Q1NoBlock | SK::Q1NoBlockId(_) | SK::Stream { qos: 0, .. } => {
                     // synchronous sends: result known
                     if first_ok != written && !(first_ok > written && ended) {
                         return Err(Violation::new(
@@ -1503,7 +1515,7 @@ impl Scenario for Out {
                 a[j].started = true;
                 a[j].handle = Some(h);
                 let chosen = |k: SK| match k {
-                    SK::Q1Id(id) | SK::SubId(id) | SK::UnsubId(id) | SK::Q2HoldId(id) => Some(id),
+                    SK::Q1Id(id) | SK::SubId(id) | SK::UnsubId(id) | SK::Q2HoldId(id) | SK::Q1NoBlockId(id) => Some(id),
                     SK::Stream { plan: 8, .. } => Some(5),
                     _ => None,
                 };
@@ -1511,7 +1523,9 @@ impl Scenario for Out {
                     for k in 0..a.len() {
                         // a QoS 2 exchange keeps its id until PUBCOMP, long after send_exactly_once() has returned
                         let q2_open = matches!(self.cfg.senders[k], SK::Q2HoldId(_)) && a[k].started && !a[k].cancelled && !self.pubcomp_sent.contains(&id) && !a[k].results.iter().any(|r| r.starts_with("err"));
-                        if k != j && chosen(self.cfg.senders[k]) == Some(id) && ((a[k].started && !a[k].done) || q2_open) {
+                        // a send through the non-blocking API is over when its callback has run, not when the call returns
+                        let nb_open = matches!(self.cfg.senders[k], SK::Q1NoBlockId(_)) && a[k].results.iter().any(|r| r == "sent") && !a[k].results.iter().any(|r| r.starts_with("ok:") || r.starts_with("err:cb"));
+                        if k != j && chosen(self.cfg.senders[k]) == Some(id) && ((a[k].started && !a[k].done) || q2_open || nb_open) {
                             self.id_overlap[j] = true;
                             self.id_overlap[k] = true;
                         }
@@ -1704,7 +1718,7 @@ impl Scenario for Out {
                 let expected_local_failure = during_stream
                     || bad_stream
                     || matches!(self.cfg.senders[j], SK::Q1Big | SK::Q1BigId(_) | SK::SubBig | SK::HugeThenTooLong)
-                    || (matches!(self.cfg.senders[j], SK::Q1Id(_) | SK::SubId(_) | SK::UnsubId(_) | SK::Q2HoldId(_)) && self.id_overlap[j] && s.results.iter().all(|r| !r.starts_with("err") || r.contains("PacketIdInUse")));
+                    || (matches!(self.cfg.senders[j], SK::Q1Id(_) | SK::SubId(_) | SK::UnsubId(_) | SK::Q2HoldId(_) | SK::Q1NoBlockId(_)) && self.id_overlap[j] && s.results.iter().all(|r| !r.starts_with("err") || r.contains("PacketIdInUse")));
                 if s.started && !s.cancelled && !expected_local_failure && s.results.iter().any(|r| r.starts_with("err")) {
                     return Err(Violation::new(
                         "send-failed",
@@ -1716,6 +1730,10 @@ impl Scenario for Out {
         }
         if self.cfg.judge & J_ROUTING != 0 {
             self.judge_routing()?;
+        } else if self.cfg.judge & J_IDS != 0 && self.unjudged.is_none() {
+            if let Some(d) = &self.dup_seen {
+                return Err(Violation::new("duplicate-packet-id", self.rwit("send"), format!("{d}: {}", self.detail())));
+            }
         }
         if self.cfg.judge & J_QOS2 != 0 {
             self.judge_qos2()?;
